@@ -2,12 +2,16 @@
 
 package tracing
 
-// Assumed contracts: the tracing layer has no effect on the state the
-// verified properties speak about (listed as trusted in every evidence file that uses them).
+// The tracing layer has no effect on the state the verified properties speak
+// about: verified frames (the constructors write nothing that existed before
+// the call). What stays assumed, and is listed in the evidence: Finish /
+// RootContext of the handler (trusted: they only call into the user-supplied
+// RequestSpan and the metrics callback) and the calls the constructors make
+// into the user-supplied RequestTracer / RequestSpan.
 
 //@ func (*TracerComponent).StartOpTelemeteryHandler
 //@ params tc service operation traceContext observerLabels
-//@ trusted
+//@ props C03
 //@ modifies nothing
 
 //@ func (*opTelemetryHandler).RootContext
@@ -22,10 +26,10 @@ package tracing
 
 //@ func NewObserverLabels
 //@ params vbID collectionIDs
-//@ trusted
+//@ props C03
 //@ modifies nothing
 
 //@ func (*TracerComponent).NewListenerTracerComponent
 //@ params tc opTracerContext
-//@ trusted
+//@ props C03
 //@ modifies nothing
